@@ -55,19 +55,22 @@ def run(tier):
         routes = ["kwargs", "config"]
         if exp == "ok" and c["freq"] >= 0 and (tier == "thorough" or gid % 3 == 0):
             routes.append("yaml")
+        if exp == "ok" and (tier == "thorough" or gid % 4 == 1):
+            routes.append("reuse")
         for r in routes:
             cases.append({"kind": kind, "route": r, "c": c, "order": "solver_first", "gid": gid, "expected": exp})
     if tier == "quick":
-        # keep every rejected case (cheap) and a seeded sample of the accepted ones
-        acc = [x for x in cases if x["expected"] == "ok"]
-        keep = set(id(x) for x in rng.sample(acc, min(len(acc), 150)))
-        base_gids = set()
-        cases = [x for x in cases if x["expected"] != "ok" or id(x) in keep]
+        # keep every rejected case (cheap) and a seeded sample of the accepted GROUPS (all routes of a configuration
+        # stay together, so that every route has its keyword-argument reference)
+        gids = sorted({x["gid"] for x in cases if x["expected"] == "ok"})
+        multi = [g for g in gids if sum(1 for x in cases if x["gid"] == g) > 2]
+        keepg = set(rng.sample(gids, min(len(gids), 45))) | set(rng.sample(multi, min(len(multi), 25)))
+        cases = [x for x in cases if x["expected"] != "ok" or x["gid"] in keepg]
     # creation order: problem created BEFORE 64-bit mode is enabled, fresh process each
     order_cases = []
     for kind in ("VI", "PI", "RVI", "PVI", "SAVI"):
         base = next(c for _, k, c, e in grid if k == kind and e == "ok" and c["eps"] == "small" and c["problem"] == "forest"
-                    and c["S"] == 4 and c["p"] == "mid" and c["mbs"] == 64 and c["verbose"] == 0
+                    and c["S"] == 4 and c["p"] == "tenth" and c["mbs"] == 64 and c["verbose"] == 0
                     and c["gamma"] == ("one" if kind == "RVI" else "mid") and c["test"] == "span"
                     and c["freq"] == 0 and c["keep"] == 1)
         gid += 1
@@ -101,10 +104,11 @@ def run(tier):
         r = ref.get(o["gid"])
         # values are compared only between runs that performed the same three sweeps (a run that converged
         # earlier legitimately sweeps once more when solve() is called again on the reloaded solver)
-        comparable = (o["solve"] == "ok" and r is not None and r.get("iteration") == 3 and o.get("iteration") == 3)
+        comparable = (o["solve"] == "ok" and r is not None and r.get("iteration") == 3
+                      and (o.get("iteration") == 3 or o["route"] == "reuse"))
         o["sameasref"] = (not comparable) or o["digest"] == r["digest"]
         payload.append({"kind": o["kind"], "c": o["c"], "construct": o["construct"], "solve": o["solve"],
-                        "dtype": o["dtype"], "sameasref": o["sameasref"]})
+                        "dtype": o["dtype"], "sameasref": o["sameasref"], "bok": o.get("bok", True)})
     acc, rej, drift, results = C.judge_traces("ConfigTrace", payload, chunk=2000, what="C20")
     for r in results:
         rep.add_tlc("ConfigTrace", r)
@@ -121,7 +125,7 @@ def run(tier):
     rep.extra.update({"constructions": len(obs),
                       "accepted": sum(1 for o in obs if o["construct"] == "ok"),
                       "rejected": sum(1 for o in obs if o["construct"] in ("ValueError", "TypeError")),
-                      "by_route": {r: sum(1 for o in obs if o["route"] == r) for r in ("kwargs", "config", "yaml")},
+                      "by_route": {r: sum(1 for o in obs if o["route"] == r) for r in ("kwargs", "config", "yaml", "reuse")},
                       "creation_order_cases": len(order_cases)})
     for o in obs[:: max(1, len(obs) // 5)][:5]:
         rep.sample({"kind": o["kind"], "route": o["route"], "order": o["order"], "cfg": effective(o["kind"], o["c"]),
